@@ -325,6 +325,9 @@ DEPENDS_TEXT = {
     'C03': 'C04 (every cell of the state table, with the frame clauses: an action leaves the receive buffer and unread '
            'indications alone)',
     'C06': 'C02 for PresentationDataValueItem and PDataTfPDU (the wire form of the fragments)',
+    'C07': 'C06 (the sender\'s side of the fragment-stream contract)',
+    'C14': 'C04 (the state-table cells that hand A-ASSOCIATE-RJ, A-ABORT and A-RELEASE PDUs to the user) and C02 for '
+           'the A-ASSOCIATE-RJ, A-ABORT and A-RELEASE PDU classes (they travel intact)',
     'C15': 'C06 (fragmentation) and C07 (reassembly)',
     'C16': 'C06 (fragmentation) and C07 (reassembly)',
     'C19': 'C15 (storage_scu: one sub-operation is one C-STORE request)',
